@@ -84,6 +84,8 @@ class FakeAsyncZeroconf:
     def __init__(self, zc: FakeZeroconf | None = None, **kw) -> None:
         if zc is None:
             if WORLD is not None and WORLD.fail_create:
+                if WORLD.fail_create == "rt":  # python-zeroconf itself: no usable interface
+                    raise RuntimeError("No interfaces to listen on, check that any interfaces have IP version 4")
                 raise OSError(19, "No such device")
             zc = FakeZeroconf(supplied=False)
         self.zeroconf = zc
